@@ -15,7 +15,11 @@ import (
 
 func TestMain(m *testing.M) {
 	v := m.Run()
-	snaps.Clean(m)
+	if os.Getenv("BB_SORT") == "1" {
+		snaps.Clean(m, snaps.CleanOpts{Sort: true})
+	} else {
+		snaps.Clean(m)
+	}
 	os.Exit(v)
 }
 
@@ -161,6 +165,15 @@ class C05(Prop):
                 cells += 1
                 if rc != 0 or img != base:
                     fails.append({"msg": "black box %s, recorded values replayed: exit=%d, files %s" % (where, rc, "changed" if img != base else "same")})
+                # (4) the same with sorting requested (the recorded file is NOT in natural order): on CI nothing may be written;
+                # off CI the entries are reordered, none lost
+                rc, out, img = run(dict(e, BB_VALUE="v0", BB_GONE="1", BB_SORT="1"))
+                cells += 1
+                if ci and img != base:
+                    fails.append({"msg": "black box %s, Clean with Sort on CI: the snapshot file was rewritten" % where})
+                if not ci and (sorted(img.get("m_test.snap", b"").split(b"\n")) != sorted(base["m_test.snap"].split(b"\n"))
+                               or img.get("m_test.snap", b"").find(b"[TestGone - 1]") > img.get("m_test.snap", b"").find(b"[TestVal - 1]")):
+                    fails.append({"msg": "black box %s, Clean with Sort: the file is not the sorted rearrangement of its entries" % where})
         shutil.rmtree(snapdir, ignore_errors=True)
         return fails, {"black_box_mode_cells": cells, "black_box": "real go test binary with TestMain+Clean under real CI / UPDATE_SNAPS environment variables"}
 
